@@ -15,7 +15,7 @@ use serde_json::json;
 use crate::explore::{bfs, sweep, Base};
 use crate::isolate::fork_map;
 use crate::judge::*;
-use crate::ops::{apply, esc, hex, take_panic, Op, P, IN_SUBJECT};
+use crate::ops::{apply, build, esc, hex, take_panic, Op, P, IN_SUBJECT};
 use crate::props::{gen_bases, Guard};
 use crate::props2::full_alphabet;
 use crate::props3::{alphabet_a, byte_alphabet, macro_alphabet, session_names};
@@ -626,6 +626,24 @@ pub fn c01(c: &Collector, g: &mut Guard) {
             c01_api_judge(c, t, "E5.api.resize", local);
         },
     );
+    // resize with BOTH dimensions large (the cell count does not fit 32 bits); the grid is never
+    // rendered here (4.9e9 cells), so only: no panic, a draw and cursor motion still work, and after
+    // shrinking back display() returns
+    {
+        let sizes: Vec<(u32, u32)> = vec![(65536, 65536), (70000, 70000), (65535, 65537), (46341, 46341), (100000, 50000), (9999, 429497), (5, 1000000)];
+        let hb: Vec<Base> = wb.iter().step_by((wb.len() / 3).max(1)).take(3).cloned().collect();
+        let t0 = std::time::Instant::now();
+        fork_map_c01(c, "api.resize-huge", hb.len() * sizes.len(), timeout, |i, cc| {
+            let b = &hb[i / sizes.len()];
+            let (l, w) = sizes[i % sizes.len()];
+            cc.add_transitions(1);
+            huge_resize_case(cc, b.columns, b.lines, &b.script, l, w, "E5.api.resize-huge");
+            cc.count("huge_resize_cases", 1);
+            if std::env::var("VERIF_VERBOSE").is_ok() {
+                eprintln!("[huge-resize] {}x{} done at {:.1}s", l, w, t0.elapsed().as_secs_f64());
+            }
+        });
+    }
     // ---------------------------------------------------------------- API sequences, depth k, display interleaved
     let depth = if thorough { 3 } else { 2 };
     let bfs_geoms: Vec<((u32, u32), usize)> = if thorough { vec![((1, 1), 3), ((2, 1), 3), ((1, 2), 3), ((3, 2), 2)] } else { vec![((1, 1), 2), ((3, 2), 2)] };
@@ -673,8 +691,47 @@ pub fn c01(c: &Collector, g: &mut Guard) {
     g.need(c, "macro_cases");
     g.need(c, "wide_param_transitions");
     g.need(c, "resize_transitions");
+    g.need(c, "huge_resize_cases");
     g.need(c, "api_sequence_transitions");
     g.need(c, "session_cases");
+}
+
+/// resize(l, w) with both dimensions large, then operations that do not materialise the grid,
+/// then a shrink and display(). Every step must return.
+pub fn huge_resize_case(c: &Collector, columns: u32, lines: u32, script: &[Op], l: u32, w: u32, engine: &str) {
+    let mut s = match build(columns, lines, script) {
+        Ok(s) => s,
+        Err(_) => return,
+    };
+    let steps = vec![
+        Op::Resize(Some(l), Some(w)),
+        Op::Draw("x".into()),
+        Op::Cup(Some(9999), Some(9999)),
+        Op::Draw("y".into()),
+        Op::Ech(Some(9999)),
+        Op::Linefeed,
+        Op::Resize(Some(2), Some(3)),
+        Op::Display,
+        Op::Draw("z".into()),
+    ];
+    let mut done: Vec<Op> = script.to_vec();
+    for op in steps {
+        if let Err(m) = apply(&mut s, &op) {
+            c.violation(Violation {
+                property: "C01".into(),
+                engine: engine.into(),
+                sig: format!("{}|panic:{}|huge", op.name(), panic_class(&m)),
+                columns,
+                lines,
+                script: done.clone(),
+                op: Some(op.clone()),
+                detail: format!("after resize({}, {}): {} panicked: {}", l, w, op.short(), m),
+                extra: json!({"huge_resize": [l, w]}),
+            });
+            return;
+        }
+        done.push(op);
+    }
 }
 
 pub fn c01_api_judge(c: &Collector, t: &crate::explore::Trans, engine: &str, _local: &mut crate::explore::Local) -> bool {
